@@ -82,21 +82,58 @@ pub struct Layout {
     /// 2 = behind, 3 = both
     #[serde(default)]
     pub extra_attrs: u8,
+    /// documentation (`DESC`) on elements whose description is not part of the model: bit 0 codings, bit 1 signals,
+    /// bit 2 frames, bit 3 project and ECU
+    #[serde(default)]
+    pub foreign_desc: u8,
 }
 
 // ------------------------------------------------------------------------------------------------
 // type vocabulary, written from the statement / the FIBEX DLT conventions
 
 fn ti(kind: TypeInfoKind, coding: StringCoding) -> TypeInfo {
-    TypeInfo { kind, coding, has_variable_info: false, has_trace_info: false }
+    TypeInfo {
+        kind,
+        coding,
+        has_variable_info: false,
+        has_trace_info: false,
+    }
 }
 pub const STANDARD_SIGNALS: [&str; 16] = [
-    "S_BOOL", "S_SINT8", "S_UINT8", "S_SINT16", "S_UINT16", "S_SINT32", "S_UINT32", "S_SINT64", "S_UINT64", "S_FLOA16", "S_FLOA32", "S_FLOA64", "S_STRG_ASCII",
-    "S_STRG_UTF8", "S_RAWD", "S_RAW",
+    "S_BOOL",
+    "S_SINT8",
+    "S_UINT8",
+    "S_SINT16",
+    "S_UINT16",
+    "S_SINT32",
+    "S_UINT32",
+    "S_SINT64",
+    "S_UINT64",
+    "S_FLOA16",
+    "S_FLOA32",
+    "S_FLOA64",
+    "S_STRG_ASCII",
+    "S_STRG_UTF8",
+    "S_RAWD",
+    "S_RAW",
 ];
 pub const BASE_TYPES: [&str; 16] = [
-    "A_UINT8", "A_INT8", "A_SINT8", "A_UINT16", "A_INT16", "A_SINT16", "A_UINT32", "A_INT32", "A_SINT32", "A_UINT64", "A_INT64", "A_SINT64", "A_FLOAT32", "A_FLOAT64",
-    "A_ASCIISTRING", "A_UNICODE2STRING",
+    "A_UINT8",
+    "A_INT8",
+    "A_SINT8",
+    "A_UINT16",
+    "A_INT16",
+    "A_SINT16",
+    "A_UINT32",
+    "A_INT32",
+    "A_SINT32",
+    "A_UINT64",
+    "A_INT64",
+    "A_SINT64",
+    "A_FLOAT32",
+    "A_FLOAT64",
+    "A_ASCIISTRING",
+    "A_UNICODE2STRING",
 ];
 pub fn standard_type(name: &str) -> Option<Option<TypeInfo>> {
     use TypeInfoKind::*;
@@ -146,12 +183,23 @@ pub fn base_type(name: &str) -> Option<TypeInfo> {
 /// frame id wins, children ordered by sequence number, unknown signal references skipped, a
 /// reference to an unknown PDU makes loading fail.
 pub fn expected(m: &Model) -> Option<FibexMetadata> {
-    let codings: HashMap<&str, &str> = m.codings.iter().map(|(a, b)| (a.as_str(), b.as_str())).collect();
-    let signals: HashMap<&str, &str> = m.signals.iter().map(|(a, b)| (a.as_str(), b.as_str())).collect();
+    let codings: HashMap<&str, &str> = m
+        .codings
+        .iter()
+        .map(|(a, b)| (a.as_str(), b.as_str()))
+        .collect();
+    let signals: HashMap<&str, &str> = m
+        .signals
+        .iter()
+        .map(|(a, b)| (a.as_str(), b.as_str()))
+        .collect();
     let type_of = |r: &str| -> Option<TypeInfo> {
         match standard_type(r) {
             Some(t) => t,
-            None => signals.get(r).and_then(|c| codings.get(c)).and_then(|b| base_type(b)),
+            None => signals
+                .get(r)
+                .and_then(|c| codings.get(c))
+                .and_then(|b| base_type(b)),
         }
     };
     let mut pdus: HashMap<&str, PduMetadata> = HashMap::new();
@@ -177,7 +225,12 @@ pub fn expected(m: &Model) -> Option<FibexMetadata> {
         for (_, r) in &refs {
             list.push(pdus.get(r.as_str())?.clone());
         }
-        let e = f.ext.clone().unwrap_or(Ext { message_type: None, message_info: None, application_id: None, context_id: None });
+        let e = f.ext.clone().unwrap_or(Ext {
+            message_type: None,
+            message_info: None,
+            application_id: None,
+            context_id: None,
+        });
         let fm = FrameMetadata {
             short_name: f.short_name.clone(),
             pdus: list,
@@ -187,18 +240,29 @@ pub fn expected(m: &Model) -> Option<FibexMetadata> {
             message_info: e.message_info.clone(),
         };
         if let (Some(c), Some(a)) = (&e.context_id, &e.application_id) {
-            frame_map_with_key.entry(FrameMetadataIdentification { context_id: c.clone(), app_id: a.clone(), frame_id: f.id.clone() }).or_insert_with(|| fm.clone());
+            frame_map_with_key
+                .entry(FrameMetadataIdentification {
+                    context_id: c.clone(),
+                    app_id: a.clone(),
+                    frame_id: f.id.clone(),
+                })
+                .or_insert_with(|| fm.clone());
         }
         frame_map.entry(f.id.clone()).or_insert(fm);
     }
-    Some(FibexMetadata { frame_map_with_key, frame_map })
+    Some(FibexMetadata {
+        frame_map_with_key,
+        frame_map,
+    })
 }
 
 // ------------------------------------------------------------------------------------------------
 // rendering
 
 pub fn esc_text(s: &str) -> String {
-    s.replace('&', "&amp;").replace('<', "&lt;").replace('>', "&gt;")
+    s.replace('&', "&amp;")
+        .replace('<', "&lt;")
+        .replace('>', "&gt;")
 }
 pub fn esc_attr(s: &str) -> String {
     esc_text(s).replace('"', "&quot;")
@@ -232,11 +296,14 @@ impl W {
             match self.counter % 5 {
                 0 => {
                     self.nl();
-                    self.s.push_str("<!-- a comment with <fx:PDU ID=\"X\"> inside -->");
+                    self.s
+                        .push_str("<!-- a comment with <fx:PDU ID=\"X\"> inside -->");
                 }
                 2 => {
                     self.nl();
-                    self.s.push_str("<fx:UNRELATED attr=\"1\"><ho:NOTE>text</ho:NOTE></fx:UNRELATED>");
+                    self.s.push_str(
+                        "<fx:UNRELATED attr=\"1\"><ho:NOTE>text</ho:NOTE></fx:UNRELATED>",
+                    );
                 }
                 3 => {
                     self.nl();
@@ -258,16 +325,38 @@ impl W {
     }
     fn leaf(&mut self, tag: &str, text: &str) {
         self.nl();
-        self.s.push_str(&format!("<{}>{}</{}>", tag, esc_text(text), tag));
+        self.s
+            .push_str(&format!("<{}>{}</{}>", tag, esc_text(text), tag));
     }
     fn reference(&mut self, tag: &str, target: &str, pairs: bool) {
         self.nl();
-        let front = if self.extra_attrs & 1 != 0 { " OID-REF=\"elsewhere\"" } else { "" };
-        let back = if self.extra_attrs & 2 != 0 { " DEST=\"X\"" } else { "" };
-        if pairs {
-            self.s.push_str(&format!("<{}{} ID-REF=\"{}\"{}></{}>", tag, front, esc_attr(target), back, tag));
+        let front = if self.extra_attrs & 1 != 0 {
+            " OID-REF=\"elsewhere\""
         } else {
-            self.s.push_str(&format!("<{}{} ID-REF=\"{}\"{}/>", tag, front, esc_attr(target), back));
+            ""
+        };
+        let back = if self.extra_attrs & 2 != 0 {
+            " DEST=\"X\""
+        } else {
+            ""
+        };
+        if pairs {
+            self.s.push_str(&format!(
+                "<{}{} ID-REF=\"{}\"{}></{}>",
+                tag,
+                front,
+                esc_attr(target),
+                back,
+                tag
+            ));
+        } else {
+            self.s.push_str(&format!(
+                "<{}{} ID-REF=\"{}\"{}/>",
+                tag,
+                front,
+                esc_attr(target),
+                back
+            ));
         }
     }
 }
@@ -277,7 +366,11 @@ fn shuffled<T: Clone>(items: &[T], keys: &[u16], at: &mut usize) -> Vec<T> {
         .iter()
         .enumerate()
         .map(|(i, x)| {
-            let k = if keys.is_empty() { 0 } else { keys[(*at + i) % keys.len()] };
+            let k = if keys.is_empty() {
+                0
+            } else {
+                keys[(*at + i) % keys.len()]
+            };
             (k, i, x.clone())
         })
         .collect();
@@ -288,8 +381,16 @@ fn shuffled<T: Clone>(items: &[T], keys: &[u16], at: &mut usize) -> Vec<T> {
 
 /// the ID attribute of an id-carrying element, with unrelated attributes around it when the layout asks for them
 fn id_attr(l: &Layout, id: &str) -> String {
-    let front = if l.extra_attrs & 1 != 0 { " OID=\"oid-1\" UUID=\"0000-11\"" } else { "" };
-    let back = if l.extra_attrs & 2 != 0 { " xsi:type=\"fx:OTHER\" SID=\"9\"" } else { "" };
+    let front = if l.extra_attrs & 1 != 0 {
+        " OID=\"oid-1\" UUID=\"0000-11\""
+    } else {
+        ""
+    };
+    let back = if l.extra_attrs & 2 != 0 {
+        " xsi:type=\"fx:OTHER\" SID=\"9\""
+    } else {
+        ""
+    };
     format!("{} ID=\"{}\"{}", front, esc_attr(id), back)
 }
 
@@ -304,10 +405,30 @@ enum El<'a> {
 pub fn render(m: &Model, l: &Layout) -> Vec<String> {
     let files = l.files.clamp(1, 4) as usize;
     let st = match l.prefix_style % 4 {
-        0 => Style { fx: "fx:", ho: "ho:", pairs: l.refs_as_pairs, noise: l.noise },
-        1 => Style { fx: "", ho: "", pairs: l.refs_as_pairs, noise: l.noise },
-        2 => Style { fx: "a:", ho: "bb:", pairs: l.refs_as_pairs, noise: l.noise },
-        _ => Style { fx: "fx:", ho: "", pairs: l.refs_as_pairs, noise: l.noise },
+        0 => Style {
+            fx: "fx:",
+            ho: "ho:",
+            pairs: l.refs_as_pairs,
+            noise: l.noise,
+        },
+        1 => Style {
+            fx: "",
+            ho: "",
+            pairs: l.refs_as_pairs,
+            noise: l.noise,
+        },
+        2 => Style {
+            fx: "a:",
+            ho: "bb:",
+            pairs: l.refs_as_pairs,
+            noise: l.noise,
+        },
+        _ => Style {
+            fx: "fx:",
+            ho: "",
+            pairs: l.refs_as_pairs,
+            noise: l.noise,
+        },
     };
     // global order of elements: (file, key, original index); duplicates keep their definition order
     let mut els: Vec<El> = vec![];
@@ -317,7 +438,12 @@ pub fn render(m: &Model, l: &Layout) -> Vec<String> {
     els.extend(m.frames.iter().map(El::Frame));
     let mut order: Vec<(usize, u16, usize)> = (0..els.len())
         .map(|i| {
-            let (f, k) = if l.assign.is_empty() { (0, 0) } else { let (f, k) = l.assign[i % l.assign.len()]; (f, k.wrapping_add((i / l.assign.len()) as u16 * 7919)) };
+            let (f, k) = if l.assign.is_empty() {
+                (0, 0)
+            } else {
+                let (f, k) = l.assign[i % l.assign.len()];
+                (f, k.wrapping_add((i / l.assign.len()) as u16 * 7919))
+            };
             (f as usize % files, k, i)
         })
         .collect();
@@ -348,18 +474,33 @@ pub fn render(m: &Model, l: &Layout) -> Vec<String> {
     let mut docs = vec![];
     let mut child_at = 0usize;
     for file in 0..files {
-        let mut w = W { s: String::new(), depth: 0, noise: st.noise, counter: file as u32, extra_attrs: l.extra_attrs };
+        let mut w = W {
+            s: String::new(),
+            depth: 0,
+            noise: st.noise,
+            counter: file as u32,
+            extra_attrs: l.extra_attrs,
+        };
         w.s.push_str("<?xml version=\"1.0\" encoding=\"UTF-8\"?>");
         let root = format!("{}FIBEX", st.fx);
-        w.open(&root, " xmlns:ho=\"http://www.asam.net/xml\" xmlns:fx=\"http://www.asam.net/xml/fbx\"");
+        w.open(
+            &root,
+            " xmlns:ho=\"http://www.asam.net/xml\" xmlns:fx=\"http://www.asam.net/xml/fbx\"",
+        );
         w.open(&format!("{}PROJECT", st.fx), " ID=\"Project\"");
         w.leaf(&format!("{}SHORT-NAME", st.ho), "ProjectName");
+        if l.foreign_desc & 8 != 0 {
+            w.leaf(&format!("{}DESC", st.ho), "documentation of the project");
+        }
         w.close(&format!("{}PROJECT", st.fx));
         w.open(&format!("{}ELEMENTS", st.fx), "");
         if l.ecu_block && file == 0 {
             w.open(&format!("{}ECUS", st.fx), "");
             w.open(&format!("{}ECU", st.fx), " ID=\"ECU1\"");
             w.leaf(&format!("{}SHORT-NAME", st.ho), "ECU1");
+            if l.foreign_desc & 8 != 0 {
+                w.leaf(&format!("{}DESC", st.ho), "documentation of the ECU");
+            }
             w.open(&format!("{}MANUFACTURER-EXTENSION", st.fx), "");
             w.leaf("SW_VERSION", "unknown");
             w.open("APPLICATIONS", "");
@@ -385,6 +526,12 @@ pub fn render(m: &Model, l: &Layout) -> Vec<String> {
                     let t = format!("{}CODING", st.fx);
                     w.open(&t, &id_attr(l, id));
                     w.leaf(&format!("{}SHORT-NAME", st.ho), id);
+                    if l.foreign_desc & 1 != 0 {
+                        w.leaf(
+                            &format!("{}DESC", st.ho),
+                            &format!("documentation of coding {}", id),
+                        );
+                    }
                     w.nl();
                     if st.pairs {
                         w.s.push_str(&format!("<{h}CODED-TYPE {h}BASE-DATA-TYPE=\"{}\" CATEGORY=\"STANDARD-LENGTH-TYPE\"></{h}CODED-TYPE>", esc_attr(base), h = st.ho));
@@ -397,6 +544,12 @@ pub fn render(m: &Model, l: &Layout) -> Vec<String> {
                     let t = format!("{}SIGNAL", st.fx);
                     w.open(&t, &id_attr(l, id));
                     w.leaf(&format!("{}SHORT-NAME", st.ho), id);
+                    if l.foreign_desc & 2 != 0 {
+                        w.leaf(
+                            &format!("{}DESC", st.ho),
+                            &format!("documentation of signal {}", id),
+                        );
+                    }
                     // CODING-REF is only ever written as an empty element (the form FIBEX tools emit)
                     w.reference(&format!("{}CODING-REF", st.fx), coding, false);
                     w.close(&t);
@@ -423,14 +576,22 @@ pub fn render(m: &Model, l: &Layout) -> Vec<String> {
                         Desc::Text(d) => w.leaf(&format!("{}DESC", st.ho), d),
                         Desc::Markup(d) => {
                             w.nl();
-                            w.s.push_str(&format!("<{}DESC><b>{}</b> and text<br/></{}DESC>", st.ho, esc_text(d), st.ho));
+                            w.s.push_str(&format!(
+                                "<{}DESC><b>{}</b> and text<br/></{}DESC>",
+                                st.ho,
+                                esc_text(d),
+                                st.ho
+                            ));
                         }
                     }
                     w.leaf(&format!("{}BYTE-LENGTH", st.fx), &p.byte_length.to_string());
                     w.leaf(&format!("{}PDU-TYPE", st.fx), "OTHER");
                     if !p.signals.is_empty() {
                         w.open(&format!("{}SIGNAL-INSTANCES", st.fx), "");
-                        for (k, (seq, r)) in shuffled(&p.signals, &l.child_keys, &mut child_at).iter().enumerate() {
+                        for (k, (seq, r)) in shuffled(&p.signals, &l.child_keys, &mut child_at)
+                            .iter()
+                            .enumerate()
+                        {
                             let it = format!("{}SIGNAL-INSTANCE", st.fx);
                             w.open(&it, &id_attr(l, &format!("SI_{}_{}", p.id, k)));
                             if k % 2 == 0 {
@@ -450,6 +611,12 @@ pub fn render(m: &Model, l: &Layout) -> Vec<String> {
                     let t = format!("{}FRAME", st.fx);
                     w.open(&t, &id_attr(l, &f.id));
                     w.leaf(&format!("{}SHORT-NAME", st.ho), &f.short_name);
+                    if l.foreign_desc & 4 != 0 {
+                        w.leaf(
+                            &format!("{}DESC", st.ho),
+                            &format!("documentation of frame {}", f.id),
+                        );
+                    }
                     w.leaf(&format!("{}BYTE-LENGTH", st.fx), &f.byte_length.to_string());
                     w.leaf(&format!("{}FRAME-TYPE", st.fx), "OTHER");
                     let ext_first = f.byte_length % 2 == 1;
@@ -485,7 +652,10 @@ pub fn render(m: &Model, l: &Layout) -> Vec<String> {
                     }
                     if !f.pdus.is_empty() {
                         w.open(&format!("{}PDU-INSTANCES", st.fx), "");
-                        for (k, (seq, r)) in shuffled(&f.pdus, &l.child_keys, &mut child_at).iter().enumerate() {
+                        for (k, (seq, r)) in shuffled(&f.pdus, &l.child_keys, &mut child_at)
+                            .iter()
+                            .enumerate()
+                        {
                             let it = format!("{}PDU-INSTANCE", st.fx);
                             w.open(&it, &id_attr(l, &format!("PI_{}_{}", f.id, k)));
                             if k % 2 == 0 {
@@ -526,9 +696,27 @@ fn free_text() -> BoxedStrategy<String> {
 }
 fn short_id() -> BoxedStrategy<String> {
     // mostly ids that fit the 4-byte wire field; a FIBEX document may also carry longer ones (kept verbatim by the loader)
-    prop::sample::select(vec!["APP", "CTX1", "DR", "TIME", "A", "é1", "x&y", "APP", "CTX1", "DR", "TIME", "MOTÖR", "AB€1", "LONGAPPID", "日本語", "APP10", "abcé"])
-        .prop_map(|s| s.to_string())
-        .boxed()
+    prop::sample::select(vec![
+        "APP",
+        "CTX1",
+        "DR",
+        "TIME",
+        "A",
+        "é1",
+        "x&y",
+        "APP",
+        "CTX1",
+        "DR",
+        "TIME",
+        "MOTÖR",
+        "AB€1",
+        "LONGAPPID",
+        "日本語",
+        "APP10",
+        "abcé",
+    ])
+    .prop_map(|s| s.to_string())
+    .boxed()
 }
 
 /// distinct ascending sequence numbers for `n` children
@@ -536,7 +724,11 @@ fn seqs(gaps: &[u8]) -> Vec<u32> {
     let mut v = vec![];
     let mut cur = 0u32;
     for (i, g) in gaps.iter().enumerate() {
-        cur += if i == 0 { (*g % 3) as u32 } else { 1 + (*g % 5) as u32 };
+        cur += if i == 0 {
+            (*g % 3) as u32
+        } else {
+            1 + (*g % 5) as u32
+        };
         v.push(cur);
     }
     v
@@ -554,8 +746,16 @@ fn model_sized(large: bool) -> BoxedStrategy<Model> {
     // pools of ids
     let n_codings = if large { 0usize..9 } else { 0usize..5 };
     let n_signals = if large { 0usize..9 } else { 0usize..6 };
-    let (n_pdus, n_frames, pdu_ids, frame_ids) = if large { (10usize..60, 8usize..40, 50u8, 30u32) } else { (0usize..9, 0usize..6, 7u8, 6u32) };
-    let (n_sig_inst, n_pdu_inst) = if large { (0usize..20, 0usize..24) } else { (0usize..6, 0usize..7) };
+    let (n_pdus, n_frames, pdu_ids, frame_ids) = if large {
+        (10usize..60, 8usize..40, 50u8, 30u32)
+    } else {
+        (0usize..9, 0usize..6, 7u8, 6u32)
+    };
+    let (n_sig_inst, n_pdu_inst) = if large {
+        (0usize..20, 0usize..24)
+    } else {
+        (0usize..6, 0usize..7)
+    };
     (
         vec(prop_oneof![6 => prop::sample::select(BASE_TYPES.to_vec()).prop_map(|s| s.to_string()), 1 => Just("A_BITFIELD".to_string()), 1 => Just("A_FLOAT16".to_string())], n_codings),
         vec(0u8..8, n_signals),
@@ -656,12 +856,58 @@ fn model_sized(large: bool) -> BoxedStrategy<Model> {
 }
 
 pub fn layout() -> BoxedStrategy<Layout> {
-    (1u8..=4, vec((0u8..4, any::<u16>()), 40), vec(any::<u16>(), 1..24), 0u8..4, any::<bool>(), 0u8..3, prop::bool::weighted(0.3), prop::bool::weighted(0.25), prop_oneof![3 => Just(0u8), 1 => 1u8..4])
-        .prop_map(|(files, assign, child_keys, prefix_style, refs_as_pairs, noise, ecu_block, empty_tags, extra_attrs)| Layout { files, assign, child_keys, prefix_style, refs_as_pairs, noise, ecu_block, empty_tags, extra_attrs })
+    (
+        1u8..=4,
+        vec((0u8..4, any::<u16>()), 40),
+        vec(any::<u16>(), 1..24),
+        0u8..4,
+        any::<bool>(),
+        0u8..3,
+        prop::bool::weighted(0.3),
+        prop::bool::weighted(0.25),
+        prop_oneof![3 => Just(0u8), 1 => 1u8..4],
+        prop_oneof![2 => Just(0u8), 1 => 1u8..16],
+    )
+        .prop_map(
+            |(
+                files,
+                assign,
+                child_keys,
+                prefix_style,
+                refs_as_pairs,
+                noise,
+                ecu_block,
+                empty_tags,
+                extra_attrs,
+                foreign_desc,
+            )| Layout {
+                files,
+                assign,
+                child_keys,
+                prefix_style,
+                refs_as_pairs,
+                noise,
+                ecu_block,
+                empty_tags,
+                extra_attrs,
+                foreign_desc,
+            },
+        )
         .boxed()
 }
 
 /// the canonical layout: one file, definition order, sample-file style
 pub fn plain_layout() -> Layout {
-    Layout { files: 1, assign: vec![], child_keys: vec![], prefix_style: 0, refs_as_pairs: false, noise: 1, ecu_block: false, empty_tags: false, extra_attrs: 0 }
+    Layout {
+        files: 1,
+        assign: vec![],
+        child_keys: vec![],
+        prefix_style: 0,
+        refs_as_pairs: false,
+        noise: 1,
+        ecu_block: false,
+        empty_tags: false,
+        extra_attrs: 0,
+        foreign_desc: 0,
+    }
 }
